@@ -1,6 +1,7 @@
 package server
 
 import (
+	"github.com/tidwall/resp"
 	lua "github.com/yuin/gopher-lua"
 )
 
@@ -88,4 +89,51 @@ func VH_C18_readonly_and_atomic() {
 			vassert("C18.K1.evalna_write_logged_before_unlock", len(s.aofbuf) > aofBefore && lk.aofAtUnlock == len(s.aofbuf))
 		}
 	}
+}
+
+// VH_C18_script_cache: SCRIPT LOAD / EXISTS / FLUSH and EVALSHA: a loaded script runs by its SHA exactly as by its
+// text (same reply, per-call KEYS/ARGV, no globals left behind), an unknown or flushed SHA is an error and runs nothing.
+//verif:cfg b_scripts=3 b_variants=EVALSHA,EVALROSHA,EVALNASHA b_steps=load,exists,evalsha_twice_with_different_arguments,eval_by_text,flush,evalsha_again ignorego=1
+func VH_C18_script_cache() {
+	s, _ := vhGateServer()
+	scripts := [3]string{"return KEYS[1] .. ARGV[1]", "return tile38.call('get', KEYS[1], ARGV[1])", "return {KEYS[1], ARGV[1], #KEYS, #ARGV}"}
+	script := scripts[vchoose(3)]
+	v := vchoose(3)
+	sha := [3]string{"EVALSHA", "EVALROSHA", "EVALNASHA"}[v]
+	txt := [3]string{"EVAL", "EVALRO", "EVALNA"}[v]
+	r, _, err := vhDo(s, "SCRIPT", "LOAD", script)
+	vassert("C18.K3.load_returns_sha1_of_text", err == nil && r.String() == Sha1Sum(script))
+	id := r.String()
+	ex, _, _ := vhDo(s, "SCRIPT", "EXISTS", id, "0000000000000000000000000000000000000000")
+	vassert("C18.K3.exists", len(ex.Array()) == 2 && ex.Array()[0].Integer() == 1 && ex.Array()[1].Integer() == 0)
+	a1, _, e1 := vhDo(s, sha, id, "1", "fleet", "truck1")
+	b1, _, e2 := vhDo(s, txt, script, "1", "fleet", "truck1")
+	vassert("C18.K3.sha_runs_as_text", e1 == nil && e2 == nil && vhRender(a1) == vhRender(b1))
+	// a second call with other arguments sees its own KEYS / ARGV only
+	a2, _, e3 := vhDo(s, sha, id, "1", "fleet", "truck2")
+	b2, _, e4 := vhDo(s, txt, script, "1", "fleet", "truck2")
+	vassert("C18.K3.second_call_sees_its_own_arguments", e3 == nil && e4 == nil && vhRender(a2) == vhRender(b2) && vhRender(a2) != vhRender(a1))
+	before := vhSnapshot(s)
+	_, _, e5 := vhDo(s, "SCRIPT", "FLUSH")
+	vassert("C18.K3.flush_ok", e5 == nil)
+	ex2, _, _ := vhDo(s, "SCRIPT", "EXISTS", id)
+	vassert("C18.K3.flushed_script_is_gone", len(ex2.Array()) == 1 && ex2.Array()[0].Integer() == 0)
+	_, _, e6 := vhDo(s, sha, id, "1", "fleet", "truck1")
+	vassert("C18.K3.flushed_sha_is_an_error", e6 != nil)
+	vassert("C18.K3.reads_changed_nothing", vhSnapshot(s) == before)
+	L, _ := s.luapool.Get()
+	vassert("C18.K2.keys_cleared", L.GetGlobal("KEYS") == lua.LNil && L.GetGlobal("ARGV") == lua.LNil)
+	s.luapool.Put(L)
+	vobs("cache", v, vhRender(a1), vhRender(a2))
+}
+
+func vhRender(v resp.Value) string {
+	if v.Type() == resp.Array {
+		out := "["
+		for _, e := range v.Array() {
+			out += vhRender(e) + ","
+		}
+		return out + "]"
+	}
+	return v.String()
 }
